@@ -92,3 +92,71 @@ Definition sym_spec_binop :=
              (fun a => Ok (NfOf a)).
 Definition sym_spec_unop :=
   spec_unop sym symnf (fun f a => Ok (SUn f a)) (fun a => Ok (NfOf a)).
+
+(* ---- what a well-formed operator layer looks like (decidable; `dispatch_table_correct` and the
+        generated obligations evaluate it by computation) ------------------------------------- *)
+Definition fdo_of (o:bop) : fdo :=
+  match o with
+  | Add => F_numeric_add | Sub => F_numeric_sub | Mul => F_numeric_mul | TrueDiv => F_numeric_truediv
+  | FloorDiv => F_numeric_floordiv | Mod => F_numeric_mod | DivMod => F_numeric_divmod
+  | And => F_numeric_and | Or => F_numeric_or | Xor => F_numeric_xor
+  | Lt => F_less_than | Le => F_less_than_equal | Eq => F_equal | Ne => F_not_equal
+  | Gt => F_greater_than | Ge => F_greater_than_equal
+  end.
+Definition fdo_of_u (u:uop) : fdo := match u with Invert => F_invert | LogicalNot => F_logical_not end.
+Definition wrapper_of (o:bop) : wrapper := match o with DivMod => W_divmod | _ => W_binary end.
+
+Definition all_classes : list cls := [NumericMem; CategoricalMem; TimestampMem; NumericH5; CategoricalH5; TimestampH5].
+Definition all_bops : list bop := [Add; Sub; Mul; TrueDiv; FloorDiv; Mod; DivMod; And; Or; Xor; Lt; Le; Eq; Ne; Gt; Ge].
+Definition all_uops : list uop := [Invert; LogicalNot].
+
+Definition arg_eqb (a b:arg) : bool := match a, b with ASelf, ASelf | AOther, AOther => true | _, _ => false end.
+Fixpoint args_eqb (a b:list arg) : bool :=
+  match a, b with
+  | [], [] => true
+  | x :: a', y :: b' => arg_eqb x y && args_eqb a' b'
+  | _, _ => false
+  end.
+Definition method_is (m:option (fdo * list arg)) (f:fdo) (a:list arg) : bool :=
+  match m with Some (f', a') => fdo_eqb f' f && args_eqb a' a | None => false end.
+Definition opdef_is (m:option (wrapper * npop)) (w:wrapper) (o:npop) : bool :=
+  match m with Some (w', o') => (wrapper_code w' =? wrapper_code w) && (npop_code o' =? npop_code o) | None => false end.
+
+(* __X__ calls op X on (self, other); __rX__ calls op X on (other, self); present for every
+   operator the class supports *)
+Definition method_ok (T:code_tables) (c:cls) (o:bop) : bool :=
+  if supported c o then
+    method_is (lookup (t_methods T) c (D_fwd o)) (fdo_of o) [ASelf; AOther]
+    && (is_cmp o || method_is (lookup (t_methods T) c (D_refl o)) (fdo_of o) [AOther; ASelf])
+  else true.
+Definition unary_ok (T:code_tables) (c:cls) (u:uop) : bool :=
+  if supported_u c u then method_is (lookup (t_methods T) c (D_un u)) (fdo_of_u u) [ASelf] else true.
+
+(* reflected operators are reachable: a class that defines operators opts out of numpy's ufunc handling *)
+Definition class_ok (T:code_tables) (c:cls) : bool :=
+  forallb (method_ok T c) all_bops && forallb (unary_ok T c) all_uops && lookup_flag (t_ufunc T) c.
+
+Definition ops_ok (T:code_tables) : bool :=
+  forallb (fun o => opdef_is (lookup_op (t_ops T) (fdo_of o)) (wrapper_of o) (npop_of o)) all_bops
+  && forallb (fun u => opdef_is (lookup_op (t_ops T) (fdo_of_u u)) W_unary (npop_of_u u)) all_uops.
+
+Definition tables_ok (T:code_tables) : bool := forallb (class_ok T) all_classes && ops_ok T.
+
+(* the part of tables_ok that F-C13a violates, separately *)
+Definition reflected_reachable (T:code_tables) : bool :=
+  forallb (fun c => lookup_flag (t_ufunc T) c
+                    || negb (existsb (fun o => match lookup (t_methods T) c (D_refl o) with Some _ => true | None => false end
+                                              || (is_cmp o && match lookup (t_methods T) c (D_fwd o) with Some _ => true | None => false end))
+                                     all_bops))
+          all_classes.
+
+(* every operator method of the tree is __X__ -> X(self, other) / __rX__ -> X(other, self): also for
+   entries outside `supported` (none exist: the table has exactly the supported entries) *)
+Definition entry_wellformed (e:entry) : bool :=
+  let '(c, d, f, a) := e in
+  match d with
+  | D_fwd o => supported c o && fdo_eqb f (fdo_of o) && args_eqb a [ASelf; AOther]
+  | D_refl o => supported c o && negb (is_cmp o) && fdo_eqb f (fdo_of o) && args_eqb a [AOther; ASelf]
+  | D_un u => supported_u c u && fdo_eqb f (fdo_of_u u) && args_eqb a [ASelf]
+  end.
+
